@@ -304,6 +304,12 @@ func PreMarshal(element Element, encoder *xml.Encoder, start *xml.StartElement) 
 				Name:  xml.Name{Local: "xmlns:olive"},
 				Value: "http://olive.io/spec/BPMN/MODEL",
 			},
+			// expressions are written with xsi:type; without this declaration a
+			// formal expression is read back as an informal one
+			xml.Attr{
+				Name:  xml.Name{Local: "xmlns:xsi"},
+				Value: "http://www.w3.org/2001/XMLSchema-instance",
+			},
 		)
 	}
 }
